@@ -157,6 +157,8 @@ def run(ctx):
             plumbing = {"deref", "as_str", "load_code", "into_future", "new_unchecked", "poll"}
             ctx.check("load_code" in names and all(n in plumbing or n.startswith("{closure") for n in upto), P, "contents-passed",
                       "map receives exactly the String load_code returned (chain %s)" % upto, c.where())
+    from .c05 import rule_same_text
+    rule_same_text(ctx, facts, "C03-R4")
     # ---- R2 ------------------------------------------------------------------------------------
     from . import c05
     sub = _Only(ctx, "C03-R2", ("table|insert", "extra-condition|insert", "early-exit-first", "loop-filtered", "filter-source", "anchor|filters", "anchor|early-exit"))
